@@ -52,6 +52,11 @@ def read_consts():
         raise ExecError("cannot find EPS in tea-core/src/prelude.rs")
     consts["EPS"] = Fraction(m.group(1).strip().replace("_", ""))
     consts["tea_core::prelude::EPS"] = consts["EPS"]
+    # integer unit-conversion constants of tea-time (appear as `const convert::NAME` in the MIR)
+    conv = os.path.join(REPO, "tea-time", "src", "convert.rs")
+    if os.path.exists(conv):
+        for m in re.finditer(r"pub const (\w+): i64 = ([0-9_]+);", open(conv).read()):
+            consts[m.group(1)] = int(m.group(2).replace("_", ""))
     return consts
 
 
